@@ -37,6 +37,7 @@ type Case struct {
 	SharedOpts   bool   `json:"sharedopts,omitempty"` // the call also passes a package-level []Option (neutral values) that all calls share
 	DebugQuiet   bool   `json:"debugquiet,omitempty"` // Debug(true) without capturing the trace (concurrent mode: stdout is the null device)
 	StatsPre     uint64 `json:"statspre,omitempty"` // with Stats: the caller's Stats struct already holds this ExprCnt (it was used for an earlier parse)
+	StatsReused  bool   `json:"statsreused,omitempty"` // Statistics with one package-level Stats value that every such call of the process shares (sequential runs only)
 	InitProbe    bool   `json:"initprobe,omitempty"` // return the result of the Parse call the harness made during package initialisation
 	Reader       bool   `json:"reader,omitempty"`  // call ParseReader instead of Parse, then parse something else through ParseReader and look at the first result again
 }
@@ -81,7 +82,7 @@ type Result struct {
 	TraceLen     int       `json:"tracelen"`
 	Dropped      int       `json:"dropped,omitempty"`
 	Panic        string    `json:"panic,omitempty"`
-	Init         *Result   `json:"init,omitempty"` // InitProbe: what the same call returned during package initialisation
+	Init         *Result   `json:"init,omitempty"` // InitProbe: the main fields hold what the call returned during package initialisation, Init what the same call returns afterwards
 	InputChanged bool      `json:"inchg,omitempty"`
 	Unstable     string    `json:"unstable,omitempty"` // the returned value changed after a later ParseReader call
 	Touched      string    `json:"touched,omitempty"`  // the caller's buffer (input bytes or its spare capacity) was written to
